@@ -8,6 +8,7 @@ import (
 	"strings"
 
 	segment "github.com/blugelabs/bluge_segment_api"
+	ice "github.com/blugelabs/ice/v2"
 )
 
 func init() {
@@ -90,6 +91,8 @@ func legC10(e *Engine) []Violation {
 		}
 		e.count("dir:"+dir.name, len(cases))
 	}
+	vs = append(vs, pureCorrespondence(e)...)
+	vs = append(vs, bigChunks(e)...)
 	// golden corpus
 	files, _ := filepath.Glob(filepath.Join(goldenDir(e), "*.case"))
 	sort.Strings(files)
@@ -187,4 +190,144 @@ func cmdGolden(args []string) int {
 	}
 	fmt.Printf("golden: wrote %d files to %s\n", n, out)
 	return 0
+}
+
+// pureCorrespondence: the format-defining integer functions as compiled from /repo (through the
+// verif hook VerifPure) against the Lean definitions the bridges prove equal to their generated
+// renderings - i.e. a validation of the translator's output on concrete arguments.
+func pureCorrespondence(e *Engine) []Violation {
+	r := NewRng(e.seed, "C10-pure", 0)
+	edges := []uint64{0, 1, 2, 127, 128, 129, 1023, 1024, 1025, 2047, 2048, 16383, 16384, 1<<31 - 1, 1 << 31, 1<<31 + 1,
+		1<<32 - 1, 1 << 32, 1<<62 - 1, 1 << 62, 1<<63 - 1, 1 << 63, 1<<63 + 5, 1<<64 - 1}
+	pick := func() uint64 {
+		if r.Chance(1, 2) {
+			return edges[r.Intn(len(edges))]
+		}
+		return r.U64() >> uint(r.Intn(64))
+	}
+	n := 3000
+	if e.tier == "thorough" {
+		n = 60000
+	}
+	c := &Case{ID: caseID("C10pure", e.seed, 0)}
+	var want []string
+	fns := []struct {
+		name string
+		ar   int
+	}{{"getChunkSize", 3}, {"encodeFreqHasLocs", 2}, {"decodeFreqHasLocs", 1}, {"fSTValEncode1Hit", 2},
+		{"fSTValDecode1Hit", 1}, {"under32Bits", 1}, {"numUvarintBytes", 1}, {"is1Hit", 1}}
+	for i := 0; i < n; i++ {
+		f := fns[r.Intn(len(fns))]
+		args := make([]uint64, f.ar)
+		for j := range args {
+			args[j] = pick()
+		}
+		switch f.name {
+		case "getChunkSize":
+			args[0] = []uint64{1, 2, 5, 64, 1024, 1025, 1026, 0, 4000}[r.Intn(9)]
+			if args[0] == 1025 && args[1] >= 1<<63 {
+				args[1] >>= 2
+			}
+		case "encodeFreqHasLocs":
+			args[1] %= 2
+		}
+		q := Query{"pure", f.name}
+		for _, a := range args {
+			q = append(q, fmt.Sprint(a))
+		}
+		out, err := ice.VerifPure(f.name, args)
+		res := "err"
+		if err == nil {
+			var ss []string
+			for _, v := range out {
+				ss = append(ss, fmt.Sprint(v))
+			}
+			res = strings.Join(ss, " ")
+		}
+		c.Queries = append(c.Queries, q)
+		want = append(want, fmt.Sprintf("r %s %d %s", c.ID, i, res))
+	}
+	got, err := e.runModel("spec", []*Case{c})
+	if err != nil {
+		return []Violation{{Prop: e.prop, Kind: "framework", Detail: err.Error()}}
+	}
+	e.count("pure-function-evaluations", n)
+	if d := firstDiff(want, got[c.ID]); d >= 0 {
+		var y string
+		if d < len(got[c.ID]) {
+			y = got[c.ID][d]
+		}
+		cc := &Case{ID: c.ID, Queries: []Query{c.Queries[d]}}
+		return []Violation{{Prop: e.prop, CaseID: c.ID, Kind: "spec-mismatch", Case: cc,
+			Detail: fmt.Sprintf("format-defining function `%s`: the compiled Go function and the pinned definition disagree\n  go:     %s\n  pinned: %s", strings.Join(c.Queries[d], " "), want[d], y)}}
+	}
+	return nil
+}
+
+// bigChunks: compressed chunks of more than 1 MiB (a stored block holding one 1.5 MiB value, a
+// doc-value chunk of 300 documents with 4000-byte terms).  The zstd frames of such chunks declare
+// large windows; a reader with a decoder limit, or a writer with other frame parameters, still
+// round-trips its own files.  The reference reading its own file is the oracle; the case is too
+// large for the line protocol of the Lean driver and is compared across implementations only.
+func bigChunks(e *Engine) []Violation {
+	r := NewRng(e.seed, "C10-big", 0)
+	cb := newCaseBuilder(caseID("C10big", e.seed, 0), r)
+	cb.u.fields = [][]byte{[]byte("_id"), []byte("big"), []byte("tag")}
+	mkBig := func(n int) []byte {
+		// compressible but not trivial: words from a small vocabulary
+		b := make([]byte, 0, n+16)
+		for len(b) < n {
+			w := []string{"alpha ", "beta ", "gamma-", "delta\n", "epsilon "}[r.Intn(5)]
+			b = append(b, w...)
+			if r.Chance(1, 9) {
+				b = append(b, byte(r.Intn(256)))
+			}
+		}
+		return b[:n]
+	}
+	docs := make([]Doc, 300)
+	for d := range docs {
+		id := []byte(fmt.Sprintf("d%d", d))
+		term := mkBig(4000)
+		for i := range term {
+			if term[i] == 0xff {
+				term[i] = 'x'
+			}
+		}
+		docs[d] = Doc{
+			{Name: []byte("_id"), Length: 1, Store: true, Value: id, Terms: []TermOcc{{Term: id, Freq: 1}}},
+			{Name: []byte("tag"), Length: 1, DV: true, Terms: []TermOcc{{Term: term, Freq: 1}}},
+		}
+	}
+	docs[1] = append(docs[1], FieldInst{Name: []byte("big"), Store: true, Value: mkBig(1536 << 10)})
+	sg := cb.addBuild(docs, 1024, "hook")
+	mg := cb.addMerge([]MergeIn{{Seg: sg, Nil: true}}, 1024, "hook", 4096)
+	for _, s := range []int{sg, mg} {
+		for _, d := range []int{0, 1, 127, 128, 299} {
+			cb.q("stored", itoa(s), itoa(d), "-1")
+		}
+		cb.q("dv", itoa(s), hx([]byte("tag")), intList([]int{0, 1, 150, 299, 2}))
+		cb.q("count", itoa(s))
+	}
+	oracle := runCaseX(cb.c, refAPI, refAPI)
+	var vs []Violation
+	for _, dir := range []struct {
+		name   string
+		wr, rd *iceAPI
+	}{{"current-writer->reference-reader", curAPI, refAPI}, {"reference-writer->current-reader", refAPI, curAPI}, {"current-writer->current-reader", curAPI, curAPI}} {
+		got := runCaseX(cb.c, dir.wr, dir.rd)
+		e.count("big-chunk-transcripts", 1)
+		if d := firstDiff(oracle, got); d >= 0 {
+			short := func(s string) string {
+				if len(s) > 300 {
+					return s[:300] + "..."
+				}
+				return s
+			}
+			qc := &Case{ID: cb.c.ID, Queries: []Query{{"(big-chunk case: 300 documents, 4000-byte doc-value terms, one 1.5 MiB stored value; regenerate with seed)"}, cb.c.Queries[d]}}
+			vs = append(vs, Violation{Prop: e.prop, CaseID: cb.c.ID, Kind: "spec-mismatch", Case: qc,
+				Detail: fmt.Sprintf("%s, chunks above 1 MiB: `%s`\n  reference->reference: %s\n  this direction:       %s", dir.name, strings.Join(cb.c.Queries[d], " "), short(oracle[d]), short(got[d]))})
+		}
+	}
+	return vs
 }
